@@ -87,4 +87,13 @@ CHECKS = {
         'technique': 'exhaustive enumeration + property-based testing (Hypothesis) against a documented-domain model; '
                      'round-trip oracle',
     },
+    'C16': {
+        'text': 'Per comparer (congruence, between, eigenvector, vector_span, vector_phase, MatrixEntryComparer, '
+                'LinearComparer) Hypothesis-generated members (by the defining transformation) and non-members at a '
+                'residual measured by the oracle, plus exhaustive LinearComparer mode/credit grid and shape-mismatch '
+                'policy grid; verdict and grade_decimal judged against membership known by construction.',
+        'note': 'Members judged only with residual <= tol/100, non-members only with residual >= 100 x tol (guard band '
+                'discarded); literal targets; real samples.',
+        'technique': 'property-based testing (Hypothesis) with membership-by-construction oracle + exhaustive grids',
+    },
 }
